@@ -32,7 +32,7 @@ for sid, (dc, t, dm, checks) in sorted(f.items()):
         meta["first_pass_quick_tier"] = {k: {"exit": v["exit"], "first_key": ""} for k, v in checks.items()}
         if sid in a:
             meta["detected_by_quick_tier"] = a[sid][3]
-            meta["note"] = "missed by the checks as they were when the change was written; detected after the strengthening described in DESIGN.md 11.2"
+            meta["note"] = f"missed by the checks as they were when the change was written; detected after the strengthening described in DESIGN.md section 11 (round {rnd})"
     else:
         meta["detected_by_quick_tier"] = checks
     json.dump(meta, open(os.path.join(d, 'meta.json'), 'w'), indent=1)
